@@ -150,6 +150,24 @@ def b_rat(job):
             g1 = s_lit(rng.choice([2**33 + rng.randint(1, 9), 9999999999, "1/4294967297"]))
             if g1 is not None:
                 r4, _o = s_ip(rng.choice(["addassign", "mulassign"]), r3, g1)
+        # rounding of values in the GMP representation, both signs, non-integers
+        def s_op1(op, a):
+            nonlocal nid
+            nid += 1
+            o = cv.ask("op %d %s %d" % (nid, op, a))
+            if "err" in o:
+                events.append({"e": "err", "i": nid}); return None
+            f, nd, c = value_fields(o)
+            vals[nid] = nd; ids.append(nid)
+            ev = dict(f); ev.update({"e": "op", "i": nid, "op": op, "a": a, "b": 0, "cert": cert(**c)})
+            events.append(ev)
+            stats["ops"] += 1
+            return nid
+        for v in rng.sample(["-10000000001/2", "10000000001/2", "-20000000003/6", "-9223372036854775807/2", "9223372036854775809/4",
+                             "-4294967297/4294967296", "-1/4294967297", "-3000000001/3", "-7/4294967295", "2147483649/2"], 4):
+            a = s_lit(v)
+            if a is not None:
+                s_op1("ceil", a); s_op1("floor", a)
         combos = [(st, op, kd) for st in ("W", "M", "WM") for op in ("addassign", "subassign", "mulassign", "divassign", "negate")
                   for kd in ("si", "neg", "sf", "bi", "bf")]
         rng.shuffle(combos)
